@@ -534,7 +534,7 @@ def faceLocations(m: MeshStructure):
        or (type(m) is CylindricalGrid1D)\
        or (type(m) is SphericalGrid1D):
         X = FaceVariable(m, 0)
-        X._xvalue = m.facecenters._x
+        X._xvalue = np.copy(m.facecenters._x)
         return X
         
     elif (type(m) is Grid2D)\
